@@ -132,7 +132,12 @@ class TermFn:
             time.sleep(self.sleep)
         if self.fail:
             raise make_exc(*self.fail)
-        res = (self.name, a, tuple(sorted(kw.items())))
+        if self.name == "ident":
+            res = a[0]  # returns its argument unchanged (e.g. a string that equals a key)
+        elif self.name == "mktask":
+            res = (TermFn("f9"), 1)  # a value that LOOKS like a legacy task
+        else:
+            res = (self.name, a, tuple(sorted(kw.items())))
         if node is not None:
             if RUNTIME.enabled:
                 with RUNTIME.lock:
@@ -211,6 +216,10 @@ class RefEval:
         if "call" in e:
             a = tuple(self.ev(x) for x in e.get("args", []))
             kw = {k: self.ev(v) for k, v in (e.get("kwargs") or {}).items()}
+            if e["call"] == "ident":
+                return a[0]
+            if e["call"] == "mktask":
+                return (TermFn("f9"), 1)
             return (e["call"], a, tuple(sorted(kw.items())))
         if "list" in e:
             return [self.ev(x) for x in e["list"]]
